@@ -47,6 +47,11 @@ fn in_flight_exact_one_call() {
     let others: usize = kani::any();
     kani::assume(others <= 1000);
     s.model_set_in_flight(others);
+    // the cached copy of the limit is STALE: the algorithm is shared with every other service of
+    // the layer and may have moved since this service last refreshed its copy
+    let stale: usize = kani::any();
+    kani::assume(stale >= 1 && stale <= 1000);
+    s.model_set_cached_limit(stale);
     let rdy = svc::poll_ready_once(&mut s);
     if others >= limit {
         assert!(rdy.is_pending(), "[C13.not_ready_at_limit] readiness is refused while limit calls are in flight");
